@@ -282,9 +282,19 @@ pub fn marking_nontrivial(m: &[TPath]) -> bool {
 /// Documents beyond the sizes the small random generator reaches: long arrays (indices with two and three digits), wide
 /// objects, hundreds of disclosures (more than 255), long names and values, deep nesting within the supported depth.
 /// `variant` selects the shape; the marking comes in any valid order.
+/// a long string value: mostly base64 characters with some JSON-escaped and multi-byte ones
+pub fn long_text(r: &mut Rng, len: usize) -> String {
+    let alphabet: Vec<char> = "ABCDEFGHIJKLMNOPQRSTUVWXYZabcdefghijklmnopqrstuvwxyz0123456789+/=".chars().collect();
+    let mut s = String::with_capacity(len + 8);
+    for i in 0..len {
+        if i % 997 == 996 { s.push(*r.pick(&['"', '\\', '\n', 'é', '€'])); } else { s.push(*r.pick(&alphabet)); }
+    }
+    s
+}
+
 pub fn large_claims_and_marking(r: &mut Rng, variant: usize) -> (Value, Vec<TPath>) {
     let k = |s: &str| Tok::Key(s.to_string());
-    let (claims, marks): (Value, Vec<TPath>) = match variant % 8 {
+    let (claims, marks): (Value, Vec<TPath>) = match variant % 9 {
         0 => {
             // one long array, elements marked at one-, two- and three-digit indices
             let n = 20 + r.below(281);
@@ -371,6 +381,25 @@ pub fn large_claims_and_marking(r: &mut Rng, variant: usize) -> (Value, Vec<TPat
             let arr: Vec<Value> = (0..n).map(|i| json!(i % 10)).collect();
             let marks: Vec<TPath> = [99usize, 100, 999, 1_000, 9_999, 10_000, n - 1].iter().map(|i| vec![k("items"), Tok::Idx(*i)]).collect();
             (json!({"items": arr, "keep": 1}), marks)
+        }
+        8 => {
+            // digests deep inside disclosed values: a disclosable array whose elements are disclosable too, a disclosable object
+            // with disclosable members two levels further down (the level between is not disclosable); 40 to 70 disclosures
+            let n = 34 + r.below(20);
+            let arr: Vec<Value> = (0..n).map(|i| json!(format!("c{}", i))).collect();
+            let mut marks: Vec<TPath> = (0..n).filter(|i| i % 3 != 1).map(|i| vec![k("nationalities"), Tok::Idx(i)]).collect();
+            marks.push(vec![k("nationalities")]);
+            let mut groups = Map::new();
+            for g in 0..6 {
+                let name = format!("g{}", g);
+                groups.insert(name.clone(), json!({"inner": {"lat": g, "lon": g * 2, "label": format!("L{}", g)}, "plain": g}));
+                marks.push(vec![k("geo"), Tok::Key(name.clone()), k("inner"), k("lat")]);
+                if g % 2 == 0 {
+                    marks.push(vec![k("geo"), Tok::Key(name), k("inner"), k("label")]);
+                }
+            }
+            marks.push(vec![k("geo")]);
+            (json!({"nationalities": arr, "geo": Value::Object(groups), "sub": "u"}), marks)
         }
         7 => {
             // a NESTED wide object (its digest list is never reshuffled): 257 and more members, all marked; in every second
